@@ -1,5 +1,364 @@
-//! sim `fetcher` — skeleton, to be filled in (see /verif/DESIGN.md section 5).
+//! sim `fetcher`: the real `ReplicationFetcher` (through `ant_networking::verif::VerifFetcher`) driven by
+//! seeded interleavings of advertisement lists from several holders, arrivals, early completions,
+//! range / fullness updates and timer expiries in simulated time. Serves C08.
+
+mod model;
+mod world;
+
+use serde::{Deserialize, Serialize};
+use simkit::{GenCtx, PropertySpec, Rng, RunReport, Sim, Tier};
+
+/// (key index, version) — the version decides the record type a holder advertises (model::ty_of)
+pub type KV = (usize, u8);
+
+#[derive(Serialize, Deserialize, Clone, Debug, PartialEq)]
+#[serde(tag = "t")]
+pub enum Step {
+    /// `add_keys(holder, keys, index)`: one key = fresh-record advertisement, several = periodic list
+    Advert { holder: usize, keys: Vec<KV> },
+    /// the `sel`-th running network fetch of a responsive holder delivers its record (PutLocalRecord):
+    /// outcome 0 stored, 1 store full (set_farthest_on_full, not stored), 2 other store error,
+    /// 3 stored after the store evicted its farthest record
+    Arrive { sel: u32, outcome: u8 },
+    /// the `sel`-th running network fetch is reported complete early (FetchCompleted)
+    Early { sel: u32 },
+    /// FetchCompleted for a version nobody is fetching (or only queued)
+    SpuriousEarly { key: usize, ver: u8 },
+    /// a record reaches the node by another path (client upload / other fetch): index insert + notify
+    Put { key: usize, ver: u8 },
+    /// responsible distance := distance of the key of rank `rank` (+1 if `above`, -1 otherwise)
+    SetRange { rank: usize, above: bool },
+    /// `set_farthest_on_full(Some(key of rank))`, None = `set_farthest_on_full(None)`
+    SetFarthest { rank: Option<usize> },
+    /// the store drops its farthest held record (index shrinks, the fetcher is not told)
+    Evict,
+    Advance { ms: u64 },
+    Next,
+    /// deliver the `sel`-th parked event-sending task
+    Deliver { sel: u32 },
+}
+
+#[derive(Serialize, Deserialize, Clone, Debug)]
+pub struct Plan {
+    pub property: String,
+    pub mode: String,
+    pub node_key: u64,
+    pub n_keys: usize,
+    pub n_holders: usize,
+    /// holders that never answer a fetch
+    pub dead: Vec<bool>,
+    pub chan_cap: usize,
+    /// records held before the run starts
+    pub held: Vec<KV>,
+    pub steps: Vec<Step>,
+    /// bounded-liveness phase at the end: this responsive holder keeps advertising this list
+    pub live_holder: usize,
+    pub live_keys: Vec<KV>,
+}
+
+pub struct FetcherSim;
+
+fn draw_ver(rng: &mut Rng, alt: u64) -> u8 {
+    // mostly version 0; `alt`/16 of the draws pick another content version or a disagreeing kind
+    if rng.below(16) < alt {
+        *rng.pick(&[1u8, 1, 2, 2, 3, 4, 5, 6])
+    } else {
+        0
+    }
+}
+
+/// Key indices of one advertisement list: a window of neighbouring indices or scattered keys.
+fn draw_keys(rng: &mut Rng, n_keys: usize, len: usize) -> Vec<usize> {
+    let base = rng.usize_below(n_keys);
+    let windowed = rng.chance(1, 2);
+    (0..len)
+        .map(|i| if windowed { (base + i) % n_keys } else { rng.usize_below(n_keys) })
+        .collect()
+}
+
+/// A holder holds one version of a key: the version is drawn the first time the holder advertises the key.
+struct Holdings {
+    ver: Vec<std::collections::BTreeMap<usize, u8>>,
+    alt: u64,
+}
+
+impl Holdings {
+    fn list(&mut self, rng: &mut Rng, holder: usize, keys: Vec<usize>) -> Vec<KV> {
+        keys.into_iter()
+            .map(|k| {
+                let alt = self.alt;
+                let v = *self.ver[holder].entry(k).or_insert_with(|| draw_ver(rng, alt));
+                (k, v)
+            })
+            .collect()
+    }
+}
+
+impl Sim for FetcherSim {
+    type Plan = Plan;
+    const NAME: &'static str = "fetcher";
+
+    fn properties() -> Vec<PropertySpec> {
+        vec![PropertySpec {
+            id: "C08",
+            level: "exploration",
+            modes: vec!["nofault", "fault"],
+            quick_runs: 100_000,
+            thorough_runs: 4_000_000,
+            rule: "One run = one seeded plan over a universe of 5..120 keys (chunk / scratchpad / register-or-transaction with several content versions) and 1..4 holders: single-key and multi-key advertisement lists with overlaps, re-advertisements and disagreeing versions, arrivals in chosen order (stored / store full / store error / stored after eviction), early completions, puts by other paths, range and farthest-on-full updates, next_keys_to_fetch calls, event deliveries and simulated-time advances (mode fault: dead holders, advances beyond FETCH_TIMEOUT and PENDING_TIMEOUT, late arrivals, spurious completions, range shrinkage and evictions while fetches are in flight; mode nofault: every holder answers and no timer expires), followed by a bounded-liveness phase (deliver, advance 25 s, re-advertise). Every returned list, both fetcher sets and every event are checked against oracle clauses (a)-(h) and a tracking model in simulated time. Non-trivial = >=3 operations and (>=1 fired fault or >=1 arrival/delivery order that differs from FIFO); distinct = distinct fingerprint of the executed sequence of resolved choices and faults.",
+            assumptions: vec![
+                "age(d) on every stored deadline is observationally the clock advancing by d; advances keep every modelled deadline >= 2.5 s from now and a run takes far less than 1 s of real time (re-run otherwise)",
+                "the simulator plays SwarmDriver's part exactly as cmd.rs / request_response.rs do: index passed to add_keys, set_farthest_on_full before notify_about_new_put on a full store, notify regardless of the store result",
+                "distances are recomputed by the harness as sha256(a) xor sha256(b), independent of NetworkAddress::distance / convert_distance_to_u256",
+                "a fetch of (holder,key) delivers the version that holder advertised",
+                "getrandom is the only entropy source (hash order is a function of the run's entropy)",
+            ],
+        }]
+    }
+
+    fn generate(rng: &mut Rng, ctx: &GenCtx) -> Plan {
+        let fault = ctx.mode == "fault";
+        let n_keys = match rng.below(10) {
+            0..=3 => rng.urange(5, 12),
+            4..=7 => rng.urange(13, 45),
+            _ => rng.urange(46, 120),
+        };
+        let n_holders = rng.urange(1, 4);
+        let dead: Vec<bool> = (0..n_holders).map(|_| fault && rng.chance(1, 3)).collect();
+        let node_key = rng.next_u64();
+        let alt = *rng.pick(&[0u64, 1, 3, 6]);
+        // initially held fraction
+        let held_num = *rng.pick(&[0u64, 0, 1, 4, 7]);
+        let mut held = vec![];
+        for k in 0..n_keys {
+            if rng.below(8) < held_num {
+                held.push((k, draw_ver(rng, alt)));
+            }
+        }
+        // swarm knobs
+        let p_single = *rng.pick(&[1u64, 4, 8]); // of 10
+        let big_lists = rng.chance(1, 2);
+        let p_readvert = *rng.pick(&[0u64, 3, 6]); // of 10
+        let w_advert = rng.range(25, 60);
+        let w_arrive = rng.range(5, 45);
+        let w_early = if rng.chance(1, 2) { rng.range(1, 8) } else { 0 };
+        let w_put = if rng.chance(1, 2) { rng.range(1, 8) } else { 0 };
+        let w_next = rng.range(1, 8);
+        let w_advance = rng.range(2, 14);
+        let w_deliver = rng.range(1, 8);
+        let w_range = if fault && rng.chance(2, 3) { rng.range(1, 6) } else { 0 };
+        let w_far = if fault && rng.chance(1, 2) { rng.range(1, 5) } else { 0 };
+        let w_spurious = if fault && rng.chance(1, 2) { rng.range(1, 4) } else { 0 };
+        let w_evict = if fault && rng.chance(1, 3) { rng.range(1, 3) } else { 0 };
+        let weights = [
+            w_advert, w_arrive, w_early, w_put, w_next, w_advance, w_deliver, w_range, w_far, w_spurious, w_evict,
+        ];
+        let arrival_order = rng.below(3); // 0 fifo, 1 lifo, 2 random
+        let bad_store = if fault { *rng.pick(&[0u64, 1, 3]) } else { 0 }; // of 10 arrivals
+        let n_steps = match ctx.tier {
+            Tier::Quick => rng.urange(5, 60),
+            Tier::Thorough => rng.urange(5, 90),
+        };
+        let mut steps: Vec<Step> = Vec::with_capacity(n_steps + 8);
+        // most runs start with a responsible range
+        if rng.chance(3, 4) {
+            steps.push(Step::SetRange { rank: rng.usize_below(n_keys), above: rng.chance(1, 2) });
+        }
+        let mut last_list: Vec<Option<Vec<KV>>> = vec![None; n_holders];
+        let mut holdings = Holdings { ver: vec![Default::default(); n_holders], alt };
+        let draw_sel = |rng: &mut Rng| match arrival_order {
+            0 => 0u32,
+            1 => u32::MAX,
+            _ => rng.below(1 << 16) as u32,
+        };
+        let draw_advance = |rng: &mut Rng| -> u64 {
+            if !fault {
+                return rng.range(100, 6_000);
+            }
+            match rng.below(10) {
+                0..=3 => rng.range(100, 6_000),
+                4..=5 => rng.range(6_000, 19_000),
+                6..=8 => rng.range(20_500, 60_000),
+                _ => rng.range(860_000, 960_000),
+            }
+        };
+        while steps.len() < n_steps {
+            let s = match rng.weighted(&weights) {
+                0 => {
+                    let holder = rng.usize_below(n_holders);
+                    let keys = if rng.below(10) < p_readvert && last_list[holder].is_some() {
+                        // periodic replication: the same list again, sometimes with one more / one fewer key
+                        let mut l = last_list[holder].clone().unwrap();
+                        match rng.below(4) {
+                            0 => {
+                                let extra = vec![rng.usize_below(n_keys)];
+                                l.extend(holdings.list(rng, holder, extra));
+                            }
+                            1 if l.len() > 1 => {
+                                let i = rng.usize_below(l.len());
+                                l.remove(i);
+                            }
+                            _ => {}
+                        }
+                        l
+                    } else if rng.below(10) < p_single {
+                        let ks = draw_keys(rng, n_keys, 1);
+                        holdings.list(rng, holder, ks)
+                    } else {
+                        let len = if big_lists && rng.chance(1, 2) {
+                            rng.urange(15, n_keys.clamp(16, 70))
+                        } else {
+                            rng.urange(2, 7)
+                        };
+                        let ks = draw_keys(rng, n_keys, len);
+                        holdings.list(rng, holder, ks)
+                    };
+                    if keys.len() > 1 {
+                        last_list[holder] = Some(keys.clone());
+                    }
+                    Step::Advert { holder, keys }
+                }
+                1 => Step::Arrive {
+                    sel: draw_sel(rng),
+                    outcome: if rng.below(10) < bad_store { rng.range(1, 3) as u8 } else { 0 },
+                },
+                2 => Step::Early { sel: draw_sel(rng) },
+                3 => Step::Put { key: rng.usize_below(n_keys), ver: draw_ver(rng, alt) },
+                4 => Step::Next,
+                5 => Step::Advance { ms: draw_advance(rng) },
+                6 => Step::Deliver { sel: if rng.chance(1, 2) { 0 } else { rng.below(1 << 16) as u32 } },
+                7 => Step::SetRange { rank: rng.usize_below(n_keys), above: rng.chance(1, 2) },
+                8 => Step::SetFarthest {
+                    rank: if rng.chance(1, 8) { None } else { Some(rng.usize_below(n_keys)) },
+                },
+                9 => Step::SpuriousEarly { key: rng.usize_below(n_keys), ver: draw_ver(rng, alt) },
+                _ => Step::Evict,
+            };
+            let created_inflight = matches!(s, Step::Advert { .. });
+            steps.push(s);
+            // faults land with bias right after an operation that created in-flight state
+            if fault && created_inflight && rng.chance(1, 4) {
+                steps.push(match rng.below(4) {
+                    0 => Step::Advance { ms: rng.range(20_500, 45_000) },
+                    1 => Step::SetRange { rank: rng.usize_below(n_keys), above: false },
+                    2 => Step::SetFarthest { rank: Some(rng.usize_below(n_keys)) },
+                    _ => Step::Arrive { sel: draw_sel(rng), outcome: rng.range(0, 3) as u8 },
+                });
+            }
+        }
+        let live_len = match rng.below(4) {
+            0 => 1,
+            1 => rng.urange(2, 6),
+            _ => rng.urange(2, n_keys.min(40)),
+        };
+        let live_holder = rng.usize_below(n_holders);
+        let responsive: Vec<usize> = (0..n_holders).filter(|h| !dead[*h]).collect();
+        let live_keys = if rng.chance(1, 8) || responsive.is_empty() {
+            vec![]
+        } else {
+            let h = responsive[live_holder % responsive.len()];
+            let ks = draw_keys(rng, n_keys, live_len);
+            holdings.list(rng, h, ks)
+        };
+        Plan {
+            property: ctx.property.clone(),
+            mode: ctx.mode.clone(),
+            node_key,
+            n_keys,
+            n_holders,
+            dead,
+            chan_cap: rng.urange(1, 6),
+            held,
+            steps,
+            live_holder,
+            live_keys,
+        }
+    }
+
+    fn execute(plan: &Plan, entropy: u64) -> RunReport {
+        world::execute(plan, entropy)
+    }
+
+    fn shrink(plan: &Plan) -> Vec<Plan> {
+        let mut out = vec![];
+        if !plan.live_keys.is_empty() {
+            let mut p = plan.clone();
+            p.live_keys.clear();
+            out.push(p);
+        }
+        for steps in simkit::shrink::remove_chunks(&plan.steps) {
+            let mut p = plan.clone();
+            p.steps = steps;
+            out.push(p);
+        }
+        if !plan.held.is_empty() {
+            for held in simkit::shrink::remove_chunks(&plan.held).into_iter().take(24) {
+                let mut p = plan.clone();
+                p.held = held;
+                out.push(p);
+            }
+        }
+        if plan.live_keys.len() > 1 {
+            for lk in simkit::shrink::remove_chunks(&plan.live_keys).into_iter().take(24) {
+                let mut p = plan.clone();
+                p.live_keys = lk;
+                out.push(p);
+            }
+        }
+        for steps in simkit::shrink::simplify_each(&plan.steps, |s| match s {
+            Step::Advert { holder, keys } if keys.len() > 1 => {
+                let mut alts = vec![];
+                for l in simkit::shrink::remove_chunks(keys).into_iter().take(12) {
+                    if !l.is_empty() {
+                        alts.push(Step::Advert { holder: *holder, keys: l });
+                    }
+                }
+                alts
+            }
+            Step::Arrive { sel, outcome } if *sel != 0 || *outcome != 0 => {
+                let mut alts = vec![];
+                if *outcome != 0 {
+                    alts.push(Step::Arrive { sel: *sel, outcome: 0 });
+                }
+                if *sel != 0 {
+                    alts.push(Step::Arrive { sel: 0, outcome: *outcome });
+                }
+                alts
+            }
+            Step::Early { sel } if *sel != 0 => vec![Step::Early { sel: 0 }],
+            Step::Deliver { sel } if *sel != 0 => vec![Step::Deliver { sel: 0 }],
+            _ => vec![],
+        }) {
+            let mut p = plan.clone();
+            p.steps = steps;
+            out.push(p);
+        }
+        if plan.dead.iter().any(|d| *d) {
+            let mut p = plan.clone();
+            p.dead = vec![false; plan.n_holders];
+            out.push(p);
+        }
+        if plan.chan_cap != 4 {
+            let mut p = plan.clone();
+            p.chan_cap = 4;
+            out.push(p);
+        }
+        out
+    }
+
+    fn components() -> Vec<(&'static str, &'static str)> {
+        vec![
+            ("ReplicationFetcher (add_keys, notify_about_new_put, notify_fetch_early_completed, set_replication_distance_range, set_farthest_on_full, next_keys_to_fetch, timeout pruning, FailedToFetchHolders event task)", "real, through the guarded wrapper ant_networking::verif::VerifFetcher"),
+            ("NetworkAddress / KBucket distance, convert_distance_to_u256", "real (the oracle recomputes distances independently)"),
+            ("SwarmDriver glue around the fetcher (add_keys_to_replication_fetcher, PutLocalRecord, FetchCompleted handlers)", "mirrored: the simulator makes the same fetcher calls in the same order"),
+            ("record store index (locally stored keys), store fullness / eviction", "stub: a map kept by the simulator"),
+            ("holders, network fetches (GetReplicatedRecord), arrival order", "stub: the simulator decides which running fetch completes next, or never"),
+            ("std::time::Instant deadlines", "real Instants, shifted by the guarded age(d) hook; simulated time is the sum of the shifts"),
+            ("tokio task that sends FailedToFetchHolders", "real, parked at a gate until the simulator delivers it"),
+        ]
+    }
+}
+
 fn main() {
-    eprintln!("HARNESS-ERROR: sim fetcher not built yet");
-    std::process::exit(2);
+    simkit::check::main::<FetcherSim>();
 }
